@@ -62,6 +62,61 @@ def multi_mib():
     return [list(rc.oid_content(n)) for n in names]
 
 
+def lossy_runs(rec, thorough):
+    """honest agent, but one request of the walk (the 2nd or 3rd) is never answered: the walk yields what it had accepted, in order,
+    and ends with TimeoutError - it does not start over, repeat entries or go on by other means"""
+    std = scripts.std_cfgs()
+    mib = multi_mib()
+    base = "1.3.6.1.4.1.9999.7.1"
+    specs = [("getbulk", 3, True), ("getbulk", 3, False), ("getnext", None, False), ("getbulk", 20, True)]
+    runs = []
+
+    def lossy(inner, drop_at):
+        st = {"k": 0}
+
+        def respond(req):
+            if req.broken or not req.names:
+                return inner(req)
+            st["k"] += 1
+            if st["k"] == drop_at:
+                return []
+            return inner(req)
+        return respond
+    plans = [(client, cn, spec, drop_at) for client in ("sync", "async") for cn in (("v2c", "v3-md5") if not thorough else ("v2c", "v1", "v3-md5", "v3-sha1-aes"))
+             for spec in specs for drop_at in ((2,) if not thorough else (2, 3))]
+
+    async def one_async(cfg, spec, drop_at):
+        a = rec.n
+        holder = {}
+        api = await apidrv.AsyncApi.create(rec, cfg, lambda req: holder["r"](req), timeout=0.3, max_repetitions=4)
+        agent = ag.Agent(engine=cfg.engine or None) if cfg.engine else ag.Agent()
+        holder["r"] = lossy(walks.honest_responder(agent, api.cfgref, mib, 3), drop_at)
+        op, m, fetch = spec
+        real_op = "getnext" if cfg.ver == "v1" else op
+        await walks.walk_async(api, real_op, base, (4 if fetch else m) if real_op == "getbulk" else None, honest=True, mib=mib, fetch=fetch)
+        api.close()
+        return a, rec.n
+    for client, cn, spec, drop_at in plans:
+        cfg = std[cn]
+        if cfg.ver == "v1" and spec[0] == "getbulk" and not spec[2]:
+            continue
+        if client == "async":
+            a, b = asyncio.run(one_async(cfg, spec, drop_at))
+        else:
+            a = rec.n
+            holder = {}
+            api = apidrv.SyncApi(rec, cfg, lambda req: holder["r"](req), timeout=0.3, max_repetitions=4)
+            agent = ag.Agent(engine=cfg.engine or None) if cfg.engine else ag.Agent()
+            holder["r"] = lossy(walks.honest_responder(agent, api.cfgref, mib, 3), drop_at)
+            op, m, fetch = spec
+            real_op = "getnext" if cfg.ver == "v1" else op
+            walks.walk_sync(api, real_op, base, (4 if fetch else m) if real_op == "getbulk" else None, honest=True, mib=mib, fetch=fetch)
+            api.close()
+            b = rec.n
+        runs.append((a, b, dict(kind=client, ver=cfg.ver, lossy=dict(cfg=cn, spec=list(spec), drop_at=drop_at))))
+    return runs
+
+
 MULTI_KINDS = ["abandon", "nested", "interleave", "abandon-twice"]
 
 
@@ -186,6 +241,7 @@ def run(tier):
     runs += asyncio.run(run_async(rec, std["v3-noauth"], samp(28, 5), thorough))
     # several walks alive in one process: abandoned / nested / interleaved, on one session or two (each walk its own trace session)
     runs += multi_runs(rec, thorough)
+    runs += lossy_runs(rec, thorough)
     rec.close()
     nwalks = sum(1 for e in rec.events if e["ev"] == "WalkStart")
     print("  %d sessions, %d walks, %d events" % (len(runs), nwalks, rec.n), flush=True)
@@ -196,6 +252,9 @@ def run(tier):
     for a, b, info in runs:
         if "multi" in info:
             chk.case(("multi", info["kind"], info["cfg"], info["multi"], info["variant"], info["two"]), n=2)
+            continue
+        if "lossy" in info:
+            chk.case(("lossy", info["kind"], json.dumps(info["lossy"])), nontrivial=True)
             continue
         chk.case((info["kind"], info["ver"], json.dumps(info["entry"]["mib"]), json.dumps(info["entry"]["base"])), nontrivial=len(info["entry"]["expect"]) > 0,
                  n=sum(1 for e in rec.events[a:b] if e["ev"] == "WalkStart"))
@@ -208,6 +267,13 @@ def run(tier):
         ws = [e for e in rec.events[a:idxf + 1] if e["ev"] == "WalkStart"]
         op = ws[-1]["op"] if ws else "?"
         sig = dict(client=info["kind"], ver=info["ver"], op=op, ev=ev["ev"], got=ev.get("exc") or "ok")
+        if "lossy" in info:
+            lo = info["lossy"]
+            sig["lossy"] = True
+            chk.violation(sig, "%s %s %s%s, request #%d of the walk never answered: %s %s" % (info["kind"], lo["cfg"], "fetch" if lo["spec"][2] else lo["spec"][0],
+                          "" if lo["spec"][1] is None else "(%d)" % lo["spec"][1], lo["drop_at"], ev["ev"], ev.get("exc") or json.dumps(ev.get("res"))[:100]),
+                          dict(info=info, events=rec.events[a:idxf + 1][-12:]))
+            continue
         if "multi" in info:
             sig["multi"] = info["multi"]
             chk.violation(sig, "%s %s, two walks %s (%s, variant %d): %s of walk %s: %s" % (info["kind"], info["cfg"], info["multi"], "two sessions" if info["two"] else "one session",
@@ -229,7 +295,9 @@ def replay(path):
     std = scripts.std_cfgs()
     cfgname = {"v1": "v1", "v2c": "v2c"}.get(info["ver"], "v3-md5-aes")
     rec = trace.Recorder("c05-replay")
-    if "multi" in info:
+    if "lossy" in info:
+        lossy_runs(rec, False)
+    elif "multi" in info:
         if info["kind"] == "async":
             asyncio.run(run_multi_async(rec, std[info["cfg"]], info["multi"], info["variant"], info["two"]))
         else:
